@@ -68,7 +68,7 @@
    eval, weightedParameterDerivative, weightedInputDerivative, weightedDerivatives; homogeneous LinearModel networks are run through
    both net models, which must agree).   MONITORED ONLY (batch vs single, round trip, finite differences): KernelExpansion. *)
 From Coq Require Import List Arith Bool ZArith Ring Lia.
-From SharkV Require Import C04Model C04Aux C04Proofs C04Conv C04SumProofs C04ConvProofs C04ConvDerivProofs C04ConvThmProofs C04ConvDualProofs C04Pool C04PoolProofs C04Het C04HetProofs C04KindProofs C04Misc C04MiscProofs.
+From SharkV Require Import C04Model C04Aux C04Proofs C04Conv C04SumProofs C04ConvProofs C04ConvDerivProofs C04ConvThmProofs C04ConvDualProofs C04Pool C04PoolProofs C04Het C04HetProofs C04KindProofs C04Misc C04MiscProofs C04Kexp C04KexpProofs.
 Import ListNotations.
 
 (* ---------------- batch = single ---------------- *)
@@ -635,3 +635,78 @@ Print Assumptions C04_ensemble_batch_eq_single.
 Example C04_ensemble_member_example :
   forall (l : layer Z), member_rowwise Z (2%Z, fun X => lin_eval_batch 0%Z Z.add Z.mul l X).
 Proof. intros l. exists (lin_eval 0%Z Z.add Z.mul l). intros X. apply (lin_batch_is_map Z 0%Z 1%Z Z.add Z.mul Z.sub Z.opp C04_Z_is_a_ring). Qed.
+
+(* ======================= KernelExpansion (C04Kexp.v), for ANY kernel function k : X -> X -> A ======================= *)
+Theorem C04_kexp_batch_eq_single :
+  forall (A : Type) (zero : A) (add mul : A -> A -> A) (X : Type) (k : X -> X -> A) (m : kexp A X) (P P' : list X) (r r' : nat) (d : X),
+    r < length P -> r' < length P' -> nth r P d = nth r' P' d ->
+    nth r (ke_eval_batch zero add mul k m P) [] = ke_eval zero add mul k m (nth r P d) /\
+    nth r (ke_eval_batch zero add mul k m P) [] = nth r' (ke_eval_batch zero add mul k m P') [].
+Proof. exact ke_batch_eq_single. Qed.
+Print Assumptions C04_kexp_batch_eq_single.
+
+(* parameter vector = alpha row-major (one row per basis element, one column per output), then the offset if there is one *)
+Theorem C04_kexp_param_roundtrip :
+  forall (A X : Type) (m : kexp A X) (theta : list A),
+    length theta = ke_nparams m ->
+    ke_params (ke_set m theta) = theta /\ length (ke_params (ke_set m theta)) = ke_nparams m /\
+    ke_nparams (ke_set m theta) = ke_nparams m /\ ke_basis (ke_set m theta) = ke_basis m /\
+    length (ke_alpha (ke_set m theta)) = ke_nb m.
+Proof. exact ke_param_roundtrip. Qed.
+Print Assumptions C04_kexp_param_roundtrip.
+
+(* the loop over the batches of the basis with its running batchStart: the result does not depend on how the basis is cut into
+   batches (equal, unequal, one batch) *)
+Theorem C04_kexp_blocks :
+  forall (A : Type) (zero one : A) (add mul sub : A -> A -> A) (opp : A -> A),
+    ring_theory zero one add mul sub opp eq ->
+    forall (X : Type) (k : X -> X -> A) (m m' : kexp A X) (P : list X),
+      ke_wf A X m -> rows (ke_nout m) (ke_alpha m) -> length (ke_alpha m) = ke_nb m ->
+      concat (ke_basis m') = concat (ke_basis m) -> ke_nout m' = ke_nout m -> ke_alpha m' = ke_alpha m -> ke_b m' = ke_b m ->
+      ke_eval_batch zero add mul k m' P = ke_eval_batch zero add mul k m P.
+Proof. exact ke_blocks_batch. Qed.
+Print Assumptions C04_kexp_blocks.
+
+(* entry o of the output for input x is  b_o + sum_j k(basis_j, x) * alpha(j, o) *)
+Theorem C04_kexp_value :
+  forall (A : Type) (zero one : A) (add mul sub : A -> A -> A) (opp : A -> A),
+    ring_theory zero one add mul sub opp eq ->
+    forall (X : Type) (k : X -> X -> A) (m : kexp A X) (x : X) (o : nat),
+      ke_wf A X m -> rows (ke_nout m) (ke_alpha m) -> length (ke_alpha m) = ke_nb m -> o < ke_nout m ->
+      length (ke_row A zero add mul X k m x) = ke_nout m /\
+      get zero (ke_row A zero add mul X k m x) o =
+      add (get zero (ke_b0 A zero X m) o)
+          (dot zero add mul (map (fun bx => k bx x) (concat (ke_basis m))) (map (fun w => get zero w o) (ke_alpha m))).
+Proof. exact ke_row_get. Qed.
+Print Assumptions C04_kexp_value.
+
+(* KernelExpansion advertises no derivative; its output is linear in the parameter vector: exact identity for every kernel *)
+Theorem C04_kexp_linear_in_parameters :
+  forall (A : Type) (zero one : A) (add mul sub : A -> A -> A) (opp : A -> A),
+    ring_theory zero one add mul sub opp eq ->
+    forall (X : Type) (k : X -> X -> A) (m : kexp A X) (theta dtheta : list A) (P : list X) (C : list (list A)) (t : A),
+      ke_wf A X m -> length theta = ke_nparams m -> length dtheta = ke_nparams m -> rows (ke_nout m) C -> length C = length P ->
+      fr A zero add mul C (ke_eval_batch zero add mul k (ke_set m (vadd add theta (vscale mul t dtheta))) P) =
+      add (fr A zero add mul C (ke_eval_batch zero add mul k (ke_set m theta) P))
+          (mul t (fr A zero add mul C (ke_eval_batch zero add mul k (ke_set m dtheta) P))).
+Proof. exact ke_linear. Qed.
+Print Assumptions C04_kexp_linear_in_parameters.
+
+(* the kernels of the exact runs are those of the C05 model *)
+Theorem C04_kexp_kernels_are_C05 :
+  forall (A : Type) (zero one : A) (add mul : A -> A -> A) (d : nat) (c : A) (x z : list A),
+    kx_lin zero add mul x z = C05Model.k_lin A zero add mul x z /\
+    kx_poly zero one add mul d c x z = C05Model.k_poly A zero one add mul d c x z.
+Proof. intros. split; [apply kx_lin_is_C05|apply kx_poly_is_C05]. Qed.
+Print Assumptions C04_kexp_kernels_are_C05.
+
+(* ke_row is the row of the batch evaluation (so C04_kexp_value speaks about eval) and the hypotheses are satisfiable *)
+Example C04_kexp_example :
+  let m := {| ke_basis := [[[1; 2]]; [[0; 1]; [3; -1]]]%Z; ke_nout := 2; ke_alpha := [[1; 0]; [0; 0]; [2; -1]]%Z; ke_b := [5; 7]%Z |} in
+  ke_wf Z (list Z) m /\ rows (ke_nout m) (ke_alpha m) /\ length (ke_alpha m) = ke_nb m /\
+  ke_eval_batch 0%Z Z.add Z.mul (kx_poly 0%Z 1%Z Z.add Z.mul 2 1%Z) m [[1; 1]; [2; 0]]%Z = [[39; -2]; [112; -42]]%Z /\
+  (forall P, ke_eval_batch 0%Z Z.add Z.mul (kx_lin 0%Z Z.add Z.mul) m P = map (ke_row Z 0%Z Z.add Z.mul (list Z) (kx_lin 0%Z Z.add Z.mul) m) P).
+Proof.
+  cbv zeta. split; [right; reflexivity|]. split; [repeat constructor|]. split; [reflexivity|]. split; [vm_compute; reflexivity|].
+  intros P. apply ke_batch_is_map.
+Qed.
